@@ -166,7 +166,10 @@ fn check_int(ctx: &mut Ctx, how: &str, i: &Int, v: i128) {
                 match an {
                     Some(x) if x as u128 == abs => {}
                     None if abs > u64::MAX as u128 => {}
-                    other => ctx.violation(format!("{}/Int::as_negative/truncated", P), format!("as_negative({}) = {:?}, absolute value is {}", v, other, abs)),
+                    // the recorded finding is the one value whose absolute value does not fit a u64;
+                    // anything else wrong here is a different defect
+                    other if v == INT_MIN => ctx.violation(format!("{}/Int::as_negative/truncated-at-minus-2^64", P), format!("as_negative({}) = {:?}, absolute value is {}", v, other, abs)),
+                    other => ctx.violation(format!("{}/Int::as_negative/wrong", P), format!("as_negative({}) = {:?}, absolute value is {}", v, other, abs)),
                 }
             } else if an.is_some() && v != 0 {
                 ctx.violation(format!("{}/Int::as_negative/some-on-positive", P), format!("{} -> {:?}", v, an));
